@@ -219,9 +219,9 @@ func (c *C06) apply(in *hub.Instance, g *c06Ghost, op engine.Op) (pruned bool) {
 		}
 		_ = in.Proposal(&mhubtypes.TokenInfosChangeProposal{NewInfos: ti})
 	case "Bond":
-		in.Staking.Vals[op.I[0]].Bonded = true
+		in.ValRebond(int(op.I[0]))
 	case "SetPower":
-		in.Staking.Vals[op.I[0]].Power = op.I[1]
+		in.ValSetPower(int(op.I[0]), op.I[1])
 	case "FirstVote":
 		// a validator that never voted submits its first claim (walks the vote-record map)
 		v := c.Vals[op.I[0]]
